@@ -98,9 +98,10 @@ theorem tell_eq_model (k : Cursor.Cfg) (pos : Int) (hA : 0 ≤ k.A) :
   simp only [Gen.tell, Cursor.tell]
   first | exact Int.fdiv_eq_ediv_of_nonneg _ hA | grind [Int.fdiv_eq_ediv_of_nonneg]
 
-/-- `__len__`, both branches (`ds64` present or not), for a block alignment `≥ 0`. -/
-theorem len_eq_model (k : Cursor.Cfg) (ds64 : Bool) (hA : 0 ≤ k.A) :
-    Gen.len k ds64 = Cursor.len k := by
+/-- `__len__`, for a block alignment `≥ 0`: the model's `Cfg.size` is the ds64 `dataSize` when there is a ds64 chunk and
+the data chunk's size otherwise (the two sizes are separate parameters, so exchanging the branches breaks this). -/
+theorem len_eq_model (k : Cursor.Cfg) (ds64 : Bool) (dsSize chunkSize : Int) (hA : 0 ≤ k.A) :
+    Gen.len k ds64 dsSize chunkSize = Cursor.len { k with size := if ds64 then dsSize else chunkSize } := by
   cases ds64 <;> simp only [Gen.len, Cursor.len] <;>
     first | exact Int.fdiv_eq_ediv_of_nonneg _ hA | grind [Int.fdiv_eq_ediv_of_nonneg]
 
